@@ -527,6 +527,34 @@ type expSeries struct {
 	tags      map[string]string // non-empty valued tags
 	all       map[string]string // all tags
 	pts       map[uint32][]uint64
+	outside   map[uint32][]uint64 // sub-range query: sent points outside the must-return window (may be returned)
+}
+
+// cuts returns up to three timestamps c at which no point of the series lies (c-1 holds a point, the next point is
+// later than c): the first such gap, the one nearest the middle and the last. A sub-range query ending / starting at c
+// then has no point on its boundary second.
+func cuts(exp []*expSeries) []uint32 {
+	seen := map[uint32]bool{}
+	for _, e := range exp {
+		for t := range e.pts {
+			seen[t] = true
+		}
+	}
+	ts := make([]uint32, 0, len(seen))
+	for t := range seen {
+		ts = append(ts, t)
+	}
+	sort.Slice(ts, func(i, j int) bool { return ts[i] < ts[j] })
+	var gaps []uint32
+	for i := 0; i+1 < len(ts); i++ {
+		if ts[i+1] >= ts[i]+2 {
+			gaps = append(gaps, ts[i]+1)
+		}
+	}
+	if len(gaps) <= 3 {
+		return gaps
+	}
+	return []uint32{gaps[0], gaps[len(gaps)/2], gaps[len(gaps)-1]}
 }
 
 func (e *expSeries) describe() string {
@@ -562,6 +590,9 @@ func compareSeriesPoints(e *expSeries, got []QPoint) error {
 	seen := map[uint32]bool{}
 	for _, q := range got {
 		want, ok := e.pts[q.T]
+		if !ok {
+			want, ok = e.outside[q.T] // sub-range query: a sent point next to the window
+		}
 		if !ok {
 			return fmt.Errorf("returned point (t=%d, v=%v) was never sent for this series", q.T, Pt{Bits: q.Bits}.V())
 		}
@@ -670,16 +701,49 @@ func (r *runner) expectedFor(name string, need func(*expSeries) bool) []*expSeri
 
 // checkQuery runs one query and compares the returned series with the expected ones.
 func (r *runner) checkQuery(text string, exp []*expSeries, stage string, ignoreContent bool) error {
+	return r.checkQueryRange(text, exp, stage, ignoreContent, r.lo-1, r.hi+1, 0, 0)
+}
+
+// checkQueryRange: the query is evaluated over [start,end]. mustLo/mustHi (0,0 = whole series) bound the points
+// that MUST come back: mustLo <= t <= mustHi. Points of the series outside [mustLo,mustHi] may or may not be
+// returned (how the boundary second itself is treated is not fixed by the statement), but every returned point
+// must be one that was sent, bit-exactly.
+func (r *runner) checkQueryRange(text string, exp []*expSeries, stage string, ignoreContent bool, start, end, mustLo, mustHi uint32) error {
 	var qr QueryResult
-	if err := r.call(&sut.Req{Op: "c08.query", Text: text, Start: uint64(r.lo - 1), End: uint64(r.hi + 1)}, &qr, "query "+text); err != nil {
+	if err := r.call(&sut.Req{Op: "c08.query", Text: text, Start: uint64(start), End: uint64(end)}, &qr, "query "+text); err != nil {
 		return err
+	}
+	windowed := mustLo != 0 || mustHi != 0
+	if windowed {
+		// expectations restricted to the window: copies, so that the callers' series stay whole
+		var wexp []*expSeries
+		for _, e := range exp {
+			c := *e
+			c.pts = map[uint32][]uint64{}
+			c.outside = map[uint32][]uint64{}
+			for t, b := range e.pts {
+				if t >= mustLo && t <= mustHi {
+					c.pts[t] = b
+				} else {
+					c.outside[t] = b
+				}
+			}
+			if len(c.pts) == 0 {
+				c.optional = true // nothing of this series has to be returned
+			}
+			wexp = append(wexp, &c)
+		}
+		exp = wexp
 	}
 	if ignoreContent {
 		return nil
 	}
 	fail := func(f string, a ...interface{}) error {
 		var sb strings.Builder
-		fmt.Fprintf(&sb, "%s: query %s [%d,%d]: %s", stage, text, r.lo-1, r.hi+1, fmt.Sprintf(f, a...))
+		fmt.Fprintf(&sb, "%s: query %s [%d,%d]: %s", stage, text, start, end, fmt.Sprintf(f, a...))
+		if windowed {
+			fmt.Fprintf(&sb, " (sub-range query: points with %d <= t <= %d must be returned, points outside may be)", mustLo, mustHi)
+		}
 		sb.WriteString("\n  expected series:")
 		for _, e := range exp {
 			fmt.Fprintf(&sb, "\n    %s:%s", e.describe(), fmtPts(e.pts))
@@ -782,6 +846,19 @@ func (r *runner) verify(stage string) error {
 		}
 		if err := r.checkQuery(q, exp, stage, excluded); err != nil {
 			return err
+		}
+		if excluded {
+			continue
+		}
+		// the same selector over sub-ranges of the time axis: some series lie wholly or partly outside the range
+		for _, c := range cuts(exp) {
+			r.o.Count("sub_range_queries", 2)
+			if err := r.checkQueryRange(q, exp, stage, false, r.lo-1, c, r.lo-1, c-1); err != nil {
+				return err
+			}
+			if err := r.checkQueryRange(q, exp, stage, false, c, r.hi+1, c+1, r.hi+1); err != nil {
+				return err
+			}
 		}
 	}
 	// selector with equality matchers on the tags of one series
